@@ -55,7 +55,9 @@ def direct(ctx, out):
     for res in ress:
         thr = gen.threshold(res)
         # also a note written *before* its predecessor in tick order (distance ≤ 0 ≤ threshold: "at most a triplet after" holds)
-        for dist in sorted({max(1, thr - 1), max(1, thr), thr + 1, rng.randint(1, 3 * res + 3), 0, -1, -min(thr + 1, 999), -rng.randint(1, 900)}):
+        # … and long rests: many bars, and distances at the magnitudes where fixed-width or "sane maximum" arithmetic changes
+        far = {32 * res, 32 * res + 1, rng.choice([33, 64, 1000]) * res} | set(gen.ladder(rng, lo=thr + 2, k=2))
+        for dist in sorted({max(1, thr - 1), max(1, thr), thr + 1, rng.randint(1, 3 * res + 3), 0, -1, -min(thr + 1, 999), -rng.randint(1, 900)} | far):
             for pl, cl in itertools.product(LANESETS, LANESETS):
                 if pair_frac < 1 and rng.random() > pair_frac:
                     continue
